@@ -14,6 +14,7 @@
 package kit
 
 import (
+	"crypto/sha256"
 	"encoding/json"
 	"fmt"
 	"hash/fnv"
@@ -281,4 +282,16 @@ func Truncate(s string, n int) string {
 		return s
 	}
 	return s[:n] + fmt.Sprintf("…(+%d bytes)", len(s)-n)
+}
+
+// SeedBytes returns n deterministic pseudo-random bytes derived from the label
+// (a SHA-256 chain): starting corpus entries for rapid.MakeFuzz targets.
+func SeedBytes(label string, n int) []byte {
+	out := make([]byte, 0, n+32)
+	h := sha256.Sum256([]byte(label))
+	for len(out) < n {
+		out = append(out, h[:]...)
+		h = sha256.Sum256(h[:])
+	}
+	return out[:n]
 }
